@@ -1,0 +1,80 @@
+// SPDX-License-Identifier: GPL-3.0-or-later
+
+//go:build verif
+// +build verif
+
+package agent
+
+import (
+	"errors"
+	"fmt"
+	"io"
+
+	"github.com/dtn7/dtn7-go/pkg/bpv7"
+)
+
+// This file re-exports the WebSocket agent's message codec for external runtime verification (build tag verif).
+
+// VerifWam is a neutral, comparable representation of a WebSocket agent message.
+type VerifWam struct {
+	Code     uint64
+	Text     string      // status error / register endpoint / syscall request
+	Response []byte      // syscall response
+	Bundle   bpv7.Bundle // bundle message
+}
+
+func verifToWam(v VerifWam) (webAgentMessage, error) {
+	switch v.Code {
+	case wamStatusCode:
+		if v.Text == "" {
+			return newStatusMessage(nil), nil
+		}
+		return newStatusMessage(errors.New(v.Text)), nil
+	case wamRegisterCode:
+		return newRegisterMessage(v.Text), nil
+	case wamBundleCode:
+		return newBundleMessage(v.Bundle), nil
+	case wamSyscallRequestCode:
+		return newSyscallRequestMessage(v.Text), nil
+	case wamSyscallResponseCode:
+		return newSyscallResponseMessage(v.Text, v.Response), nil
+	default:
+		return nil, fmt.Errorf("unknown WAM code %d", v.Code)
+	}
+}
+
+func verifFromWam(wam webAgentMessage) (v VerifWam) {
+	v.Code = wam.typeCode()
+	switch m := wam.(type) {
+	case *wamStatus:
+		v.Text = m.errorMsg
+	case *wamRegister:
+		v.Text = m.endpoint
+	case *wamBundle:
+		v.Bundle = m.b
+	case *wamSyscallRequest:
+		v.Text = m.request
+	case *wamSyscallResponse:
+		v.Text = m.request
+		v.Response = m.response
+	}
+	return
+}
+
+// VerifWamMarshal encodes the message like the WebSocket agent does.
+func VerifWamMarshal(v VerifWam, w io.Writer) error {
+	wam, err := verifToWam(v)
+	if err != nil {
+		return err
+	}
+	return marshalCbor(wam, w)
+}
+
+// VerifWamUnmarshal decodes a message like the WebSocket agent does.
+func VerifWamUnmarshal(r io.Reader) (VerifWam, error) {
+	wam, err := unmarshalCbor(r)
+	if err != nil {
+		return VerifWam{}, err
+	}
+	return verifFromWam(wam), nil
+}
